@@ -153,7 +153,10 @@ where
         a
     });
     if inexact {
-        di.send_pixels(it.filter(|_| true))
+        // lower bound 0, upper bound three more than what is really yielded
+        let n = data.len() / N;
+        let mut it = it;
+        di.send_pixels((0..n + 3).filter_map(move |i| if i < n { it.next() } else { None }))
     } else {
         di.send_pixels(it)
     }
@@ -497,6 +500,11 @@ pub fn exec_xcase(c: &XCase) -> XOutcome {
     {
         let mut iface = match c.kind {
             XKind::Spi { .. } => Iface::Spi(SpiInterface::new(SimSpi { w: wr.clone() }, SimPin::new(&wr, PIN_DC), &mut buf)),
+            // bit 2 of init_levels: build the bus through `From` instead of `new`
+            XKind::Par8 if c.init_levels & 4 != 0 => Iface::P8(ParallelInterface::new(Generic8BitBus::from(pins8!(&wr)), SimPin::new(&wr, PIN_DC), SimPin::new(&wr, PIN_WR))),
+            XKind::Par16 if c.init_levels & 4 != 0 => Iface::P16(ParallelInterface::new(Generic16BitBus::from(pins16!(&wr)), SimPin::new(&wr, PIN_DC), SimPin::new(&wr, PIN_WR))),
+            XKind::Bus8 if c.init_levels & 4 != 0 => Iface::B8(Generic8BitBus::from(pins8!(&wr))),
+            XKind::Bus16 if c.init_levels & 4 != 0 => Iface::B16(Generic16BitBus::from(pins16!(&wr))),
             XKind::Par8 => Iface::P8(ParallelInterface::new(Generic8BitBus::new(pins8!(&wr)), SimPin::new(&wr, PIN_DC), SimPin::new(&wr, PIN_WR))),
             XKind::Par16 => Iface::P16(ParallelInterface::new(Generic16BitBus::new(pins16!(&wr)), SimPin::new(&wr, PIN_DC), SimPin::new(&wr, PIN_WR))),
             XKind::Bus8 => Iface::B8(Generic8BitBus::new(pins8!(&wr))),
@@ -803,14 +811,33 @@ pub fn gen_xcase(rng: &mut Rng, prop: &str, seed: u64, with_faults: bool, thorou
             let cap = if let XKind::Spi { buf } = kind { (buf / n as u32).max(1) as u64 } else { 8 };
             ops.push(XOp::Cmd { op: 0x2C, args: vec![] });
             let k = 3 + rng.below(7);
+            let mut last_rep: Option<Vec<u16>> = None;
             for _ in 0..k {
+                if let (Some(prev), true) = (last_rep.clone(), rng.chance(1, 5)) {
+                    // the same byte value at another pixel width: one leading zero word more or less
+                    let mut px = prev.clone();
+                    if px.len() < 4 && rng.coin() {
+                        px.insert(0, 0);
+                    } else if px.len() > 1 && px[0] == 0 {
+                        px.remove(0);
+                    } else if px.len() < 4 {
+                        px.insert(0, 0);
+                    }
+                    let nn = px.len() as u8;
+                    let cap2 = if let XKind::Spi { buf } = kind { (buf / nn as u32).max(1) as u64 } else { 8 };
+                    ops.push(XOp::Repeat { n: nn, pixel: px.clone(), count: (1 + rng.below(cap2.min(8) + 2)) as u32 });
+                    last_rep = Some(px);
+                    continue;
+                }
                 if rng.chance(2, 3) {
                     let count = match rng.below(4) {
                         0 => cap,
                         1 => cap + 1 + rng.below(3),
                         _ => 1 + rng.below(cap.min(8)),
                     } as u32;
-                    ops.push(XOp::Repeat { n, pixel: rng.pick(&pal).clone(), count: count.min(3000) });
+                    let px: Vec<u16> = rng.pick(&pal[..]).clone();
+                    last_rep = Some(px.clone());
+                    ops.push(XOp::Repeat { n, pixel: px, count: count.min(3000) });
                 } else {
                     let px = 1 + rng.below(cap.min(8) + 2);
                     let mut data = Vec::new();
@@ -902,7 +929,7 @@ pub fn gen_xcase(rng: &mut Rng, prop: &str, seed: u64, with_faults: bool, thorou
             }
         }
     }
-    let mut c = XCase { property: prop.to_string(), seed, kind, init_levels: rng.below(4) as u8, ops, faults: Vec::new() };
+    let mut c = XCase { property: prop.to_string(), seed, kind, init_levels: rng.below(8) as u8, ops, faults: Vec::new() };
     if with_faults {
         // dry run tells how many low-level operations each call performs
         let dry = exec_xcase(&c);
